@@ -20,6 +20,9 @@ Definition eAllow : ev := AllowInit.
 Definition eUapi (b : bool) : ev := Uapi b.
 Definition eRefInit (idx : int) : ev := RefInit (n_of_int idx).
 Definition eRefData : ev := RefData.
+Definition eTunErr (l : list int) (k : int) (lost : list int) : ev := TunBatchErr (ns_of_ints l) (N.to_nat (n_of_int k)) (ns_of_ints lost).
+Definition eTunIErr (l : list int) : ev := TunBatchIErr (ns_of_ints l).
+Definition eRetransmit : ev := Retransmit.
 Definition tx (idx hi lo pl : int) : N * N * N := (n_of_int idx, big hi lo, n_of_int pl).
 (* a run of consecutive counters carrying consecutive packet ids (compact form) *)
 Fixpoint txrun_aux (idx c pl : N) (n : nat) : list (N * N * N) :=
@@ -91,7 +94,8 @@ Fixpoint check_cases (ks : list case) (idx : N) : list (N * N * N) :=
     3 no key; 4 initiation because sendNonce > RekeyAfterMessages; 5 initiation suppressed by spacing;
     6 new session delivers held packets; 7 new session sends a keepalive;
     8 transports in stress traces; 9 keys in stress traces; 10 non-consecutive neighbours in stress traces;
-    11 responder session confirmed by data; 12 initiation after 2^60 on a session where the device was the RESPONDER] *)
+    11 responder session confirmed by data; 12 initiation after 2^60 on a session where the device was the RESPONDER;
+    13 transport Send refused by the bind; 14 initiation refused by the bind; 15 retransmit timer with an unanswered initiation] *)
 Fixpoint bump (l : list N) (i : nat) (d : N) : list N :=
   match l, i with
   | [], _ => []
@@ -103,6 +107,9 @@ Definition classify (s : dst) (e : ev) (m : out) (s' : dst) : list nat :=
   let held_after := nonempty (staged s') in
   let base :=
     match e with
+    | TunBatchErr (_ :: _) _ _ => [13%nat]
+    | TunBatchIErr (_ :: _) => [14%nat]
+    | Retransmit => if pending s then [15%nat] else []
     | TunBatch (_ :: _) | Uapi _ =>
         match cur s with
         | None => if nonempty (staged s') then [3%nat] else []
@@ -147,4 +154,4 @@ Definition stats_case (st : list N) (k : case) : list N :=
       bump (bump (bump st 8 n) 9 (N.of_nat (length ks))) 10 d
   end.
 
-Definition stats (ks : list case) : list N := fold_left stats_case ks [0;0;0;0;0;0;0;0;0;0;0;0;0].
+Definition stats (ks : list case) : list N := fold_left stats_case ks [0;0;0;0;0;0;0;0;0;0;0;0;0;0;0;0].
